@@ -15,7 +15,8 @@ text=f'''
 ### 14.8 Self-validation with independently written breaking changes (seeded/)
 
 {n} changes (one aimed at each of the 19 properties, a second one for C02-C05, C07-C09, C11-C13, C15, C16, a third one for
-C01, C02, C04, C07, C10, C18, C19 and a fourth-round one for C03, C05, C09, C11, C12, C15, C16) were written by
+C01, C02, C04, C06, C07, C10, C18, C19, a fourth-round one for C03, C05, C09, C11, C12, C15, C16 and a fifth-round one for
+C02, C04, C06, C07, C10, C18, C19) were written by
 fresh sub-agents that were given only the text of one property and a scratch worktree of /repo under /tmp (nothing from
 /verif); each was asked for a change that compiles, keeps the 268 pinned tests green and needs something specific to
 manifest, with a demonstration that fails with the change and passes without it. Every change was re-confirmed by
@@ -23,15 +24,17 @@ manifest, with a demonstration that fails with the change and passes without it.
 stored as `seeded/<id>/{{patch.diff, seed_demo.rs (or .sh), README.md, meta.json}}`; the worktrees and their build output
 were removed afterwards. To run the checks against a change `tools/run_seed.sh <id> <checks>` applies the patch to /repo
 (`git apply`), runs `./check`, and undoes it (`git checkout -- .`); nothing of this was ever committed to /repo. No
-request was refused by the permission system or a safety layer, by a sub-agent or by me. Eleven later agents (second round: C01, C06, C10, C14, C17, C18, C19; third round: C14, C17; fourth round: C08, C13) came back with the same change as an
+request was refused by the permission system or a safety layer, by a sub-agent or by me. Fourteen later agents (second round: C01, C06, C10, C14, C17, C18, C19; third round: C14, C17; fourth round: C08, C13; fifth round: C01, C14, C17) came back with the same change as an
 earlier one (for C06: the change already stored for C17): not stored twice. The third round's prompt added one sentence asking
-for a less obvious place than the first function that comes to mind, which produced changes in lib.rs orchestration code.
+for a less obvious place than the first function that comes to mind, which produced changes in lib.rs orchestration code;
+the fifth round's prompt additionally asked to avoid the one function where the property's main mechanism lives (changes in the
+CLI's file writer, the APNG pre-pass, the deflater wrapper and the scan-line iterator's pass bookkeeping).
 
 Result: **all {n} are reported by the check of the property they target**, {n-len(missed)} at the first run and {len(missed)} only after
 the check was strengthened (the miss and the remedy are in the table; every remedy is a wider generator, a new stream or
 an oracle clause stated from the property - none loosens anything, and all checks still pass on the unchanged tree).
 "no-failing-input-found" marks reports where only the correspondence broke; where that was the *target* property's
-report (C10, C17) the check was extended until it produced a concrete failing input or history.
+report (C10, C17, C07e, C10e) the check was extended until it produced a concrete failing input or history.
 
 | seeded change | needs, to manifest | reported by |
 |---|---|---|
@@ -90,6 +93,20 @@ What the misses taught (and what was changed):
   bKGD / sBIT / hIST against colour type, depth and palette (C02: "every structural constraint of the specification that
   the input satisfies"): a third of the deadline cases now carry such chunks under a keeping policy and the decoder
   checks them, so a timed-out run that skips the chunk clean-up is a concrete malformed output at position k.
+* **C04 / C12** (fifth round) never combined `--preserve` with a destination that already held more bytes than the
+  result: oracle-files now draws `preserve_attrs`, pre-writes a longer stale destination half the time and compares every
+  written file with the library's bytes; corr-io compares what a fault-free run delivered (file or standard output) with
+  the library's result byte for byte.
+* **C07** (fifth round) accepted an ICC profile turning into sRGB under every policy: the exception is now applied "as in
+  C14" (stripping enabled and sRGB kept), as the statement says.
+* **C10** (fifth round): a panic inside a rayon job aborts the whole harness process, which the check could only report as
+  "oracle crashed". `run_case` now notes the case it hands to the library in `<stats>.current`; when the process dies
+  the check reads that note and reports the input as the failing one (`process-aborted`). Applies to every stream/oracle.
+* **C06** (third-round change, confirmed late because its demonstration runs Zopfli for minutes): Zopfli was all but absent
+  from the quick tier, and the D3 contract was only observed on the trials a run happened to make. There is now a
+  family of few-colour, high-depth Zopfli cases in corr-eval (with counters for how often the bound falls between a
+  fast compressor's size and Zopfli's), and D3 is called directly on `Deflaters::deflate` (hook 70718ab) with limits on and
+  around the unbounded size for every compressor and level.
 '''
 p='/verif/DESIGN.md'
 s=open(p).read()
